@@ -638,6 +638,6 @@ func Gen(r *core.Rng, tier string) ([]core.In[Input], bool) {
 
 var Driver = core.Driver[Input, Observation]{
 	Spec: core.Spec{Property: "C16", Imports: []string{"C16_Model", "C16_Spec", "C16_Corr"}, Corr: "C16_Corr", Triggers: []string{"F5a"}, ShrinkKey: "batches",
-		Rule: "histories of metric batches written as hooks write them (JSON lines, parsed by the real operation package) sent to a real MetricStorage with its own registry, Gather() canonicalised after every batch; 2 hooks, 3 groups, 6 metric names with a per-history schema (kind, grouped or not, ungrouped label names, buckets), varying label shapes with empty values for grouped metrics, integer and dyadic values, add/set shortcut fields, explicit expire, 15% of batches with one invalid operation; streams: corpus, random (groups never share (name, labels)), trigger (they may: F5a), informational (out-of-domain, never judged); non-trivial = judged, >= 2 accepted batches, grouped operations, some group reported again in a later batch; distinct = distinct input term"},
+		Rule: "histories of metric batches written as hooks write them (JSON lines, parsed by the real operation package) sent to a real MetricStorage with its own registry, Gather() canonicalised after every batch; 2 hooks, 3 groups, 6 metric names with a per-history schema (kind, grouped or not, ungrouped label names, buckets), varying label shapes with empty values for grouped metrics, integer and dyadic values, add/set shortcut fields, explicit expire, 15% of batches with one invalid operation; streams: corpus, random (groups never share (name, labels)), trigger (they may: F5a), informational (out-of-domain, never judged); the implementation's observations are judged against the model run with EVERY order of the batch's groups (Go map iteration); non-trivial = judged, >= 2 accepted batches, grouped operations, some group reported again in a later batch; distinct = distinct input term"},
 	Gen: Gen, Run: Run, Render: Render, PerShard: 700, Workers: 8, CaseTimout: 30 * time.Second,
 }
